@@ -169,15 +169,29 @@ fn run(ctx: &RunCtx) -> Report {
         rawnet.with_peer(i, |p| p.knows = knows);
     }
     let n_srv = rng.usize(1, 4);
+    let first_node = rng.chance(1, 3);
     let mut servers = vec![];
     for j in 0..n_srv {
         let ip = if public { pub_ip(&mut rng) } else { priv_ip(10 + j) };
         let mut s = NodeSpec::new(ip, 6881).server();
         s.bootstrap = (0..3.min(n_raw)).map(|i| rawnet.contact(i).1.to_string()).collect();
+        if j == 0 && first_node {
+            // the first node of a network: no bootstrap list, it learns its peers from their requests
+            s.bootstrap = vec![];
+        }
         if public && rng.chance(1, 2) {
             s.public_ip = Some(ip);
         }
         servers.push(sim.add_node(s));
+    }
+    if first_node {
+        report.probe("first_node_servers", 1);
+        for i in 0..n_raw {
+            let (id, addr) = rawnet.contact(i);
+            let o = MsgOpts { version: rawnet.with_peer(i, |p| p.version.clone()), ..MsgOpts::default() };
+            sim.raw_send(addr, sim.node_addr(servers[0]), krpc::query(&krpc::tid_bytes(6000 + i as u32), "find_node", krpc::find_node_args(&id, &id), &o));
+            sim.run_for(rng.range(1, 50) * MS);
+        }
     }
     sim.run_for(5 * SEC);
     // let the servers learn more of the network through lookups
@@ -197,9 +211,56 @@ fn run(ctx: &RunCtx) -> Report {
     let n_reads = rng.usize(5, 40);
     report.elements = n_reads;
     let mut plan = vec![];
+    // half of the runs: the second half of the reads repeats the first half (same server, query and
+    // target) after the tables changed *without changing size*: some scripted peers moved to another
+    // port (same id, old address silent) and the servers met them again through lookups
+    let churn = rng.chance(1, 2) && n_reads >= 4;
+    let half = n_reads / 2;
+    let mut asked: Vec<(HostId, Id, &str)> = vec![];
     for i in 0..n_reads {
         let mut r = Rng::new(crate::rng::key(ctx.seed, &[crate::rng::tag("read"), i as u64]));
+        if churn && i == half {
+            let movers = r.usize(1, 4.min(n_raw));
+            let mut moved = 0u64;
+            for _ in 0..movers {
+                let j = r.usize(0, n_raw - 1);
+                let (id, addr) = rawnet.contact(j);
+                if rawnet.with_peer(j, |p| p.silent) {
+                    continue;
+                }
+                let new_addr = SocketAddrV4::new(*addr.ip(), addr.port().wrapping_add(1 + r.below(50) as u16));
+                let mut p = Peer::new(id, new_addr);
+                p.k = 20;
+                p.knows = rawnet.with_peer(j, |p| p.knows.clone());
+                p.version = rawnet.with_peer(j, |p| p.version.clone());
+                let nj = rawnet.add(&sim, p);
+                rawnet.with_peer(j, |p| p.silent = true);
+                for x in 0..rawnet.len() {
+                    rawnet.with_peer(x, |p| {
+                        for k in p.knows.iter_mut() {
+                            if *k == j {
+                                *k = nj;
+                            }
+                        }
+                    });
+                }
+                // the moved peer announces itself the way a (re)joining node does
+                let ver = rawnet.with_peer(nj, |p| p.version.clone());
+                for h in &servers {
+                    let o = MsgOpts { version: ver.clone(), ..MsgOpts::default() };
+                    sim.raw_send(new_addr, sim.node_addr(*h), krpc::query(&krpc::tid_bytes(7000 + moved as u32), "find_node", krpc::find_node_args(&id, &id), &o));
+                }
+                sim.run_for(400 * MS);
+                for h in &servers {
+                    let o = sim.find_node(*h, id);
+                    sim.run_ops(&[o], sim.now() + 60 * SEC);
+                }
+                moved += 1;
+            }
+            report.probe("peers_moved_to_another_port", moved);
+        }
         if !ctx.enabled(i) {
+            asked.push((servers[0], focus, "find_node"));
             continue;
         }
         let h = servers[r.usize(0, servers.len() - 1)];
@@ -221,6 +282,8 @@ fn run(ctx: &RunCtx) -> Report {
             _ => {}
         }
         let q = *r.pick(&["find_node", "get", "get_peers", "get_signed_peers"]);
+        let (h, t, q) = if churn && i >= half && i - half < asked.len() { asked[i - half] } else { (h, t, q) };
+        asked.push((h, t, q));
         let args = match q {
             "find_node" => krpc::find_node_args(&[1u8; 20], &t),
             "get" => krpc::get_args(&[1u8; 20], &t, None),
